@@ -363,3 +363,10 @@ package language
 //@ func equalObject
 //@   requires left != nil && right != nil
 //@   bodyensures[C06] tag(left) == tag(right) ==> result == deepEqual(left, right)
+
+// C09: which bytes can be part of a name - ASCII letters, digits and the characters of the especialChars table; every
+// other byte (in particular every byte >= 0x80) is an unknown character and becomes an ILLEGAL token
+//@ func isLetter
+//@   ensures[C09] result == ((97 <= ch && ch <= 122) || (65 <= ch && ch <= 90))
+//@ func isIdentifierLetter
+//@   ensures[C09] result == ((97 <= ch && ch <= 122) || (65 <= ch && ch <= 90) || (48 <= ch && ch <= 57) || (ch in especialChars && especialChars[ch]))
